@@ -29,4 +29,5 @@ cd /verif/harness || exit 2
       || { echo "HARNESS-ERROR: c16: build of the batch-size-2 variant failed" >&2; cat "$ov/build.err" >&2; exit 2; }
   mv -f "$ov/vh-c16.new" "$bin_main" && mv -f "$ov/vh-c16-b2.new" "$bin_b2" || exit 2
 ) 9>"$ov/.lock" || { echo "HARNESS-ERROR: c16: generator or build failed" >&2; exit 2; }
+[ -n "${VERIF_BUILD_ONLY:-}" ] && exit 0
 C16_B2_BIN="$bin_b2" exec "$bin_main" "$tier"
